@@ -38,6 +38,7 @@ type event struct {
 	Data  string
 	Addr  string
 	Err   string
+	At    int64 // virtual time
 }
 
 type hstate struct {
@@ -51,6 +52,7 @@ type hstate struct {
 var H *hstate
 
 func (h *hstate) add(e event) {
+	e.At = vsched.NowNS()
 	h.mu.Lock()
 	h.events = append(h.events, e)
 	h.mu.Unlock()
@@ -71,9 +73,14 @@ func (*UDPHandler) Handle(cx *layer4.Connection, _ layer4.Handler) error {
 	h.mu.Unlock()
 	h.add(event{Kind: "start", Assoc: id, Addr: cx.RemoteAddr().String()})
 	defer h.add(event{Kind: "handler-return", Assoc: id})
+	// datagrams are 2 bytes: echo reads into a roomy buffer, readk into one that fits a
+	// datagram exactly, small into one that takes two reads per datagram
 	bufSize := 64
-	if mode == "small" {
+	switch mode {
+	case "readk":
 		bufSize = 2
+	case "small":
+		bufSize = 1
 	}
 	buf := make([]byte, bufSize)
 	got := 0
@@ -155,9 +162,10 @@ func execute(x *explore.Exec, sc *Scn) *result {
 				H.add(event{Kind: "quiet"})
 			case 'F':
 				vsched.Point("fail")
+				H.add(event{Kind: "socket-fail"})
 				pc.Fail(errors.New("socket failed"))
 			default:
-				d := fmt.Sprintf("%c%d", c, seq[c])
+				d := fmt.Sprintf("%c%c", c, "0123456789abcdefghijklmnopqrstuvwxyz"[seq[c]]) // always 2 bytes
 				seq[c]++
 				res.arrivals = append(res.arrivals, d)
 				a := hm.MustUDPAddr(clients[c])
@@ -168,6 +176,7 @@ func execute(x *explore.Exec, sc *Scn) *result {
 		}
 		// let everything drain: handlers' idle timers expire after 30 s of silence
 		vtime.Sleep(95 * time.Second)
+		H.add(event{Kind: "socket-fail"})
 		pc.Fail(io.ErrClosedPipe)
 		vtime.Sleep(95 * time.Second)
 		res.sent = append(res.sent, pc.Sent...)
@@ -202,6 +211,7 @@ func check(x *explore.Exec, sc *Scn, r *result) {
 	ended := map[int]bool{}
 	delivered := map[int][]string{}
 	deliveredTo := map[string]int{}
+	socketFailed := false
 	firstDeliverIdx := map[int]int{}
 	endIdx := map[int]int{}
 	for i, e := range r.events {
@@ -227,7 +237,28 @@ func check(x *explore.Exec, sc *Scn, r *result) {
 			if _, ok := firstDeliverIdx[e.Assoc]; !ok {
 				firstDeliverIdx[e.Assoc] = i
 			}
+		case "socket-fail":
+			socketFailed = true
 		case "end", "handler-return":
+			if e.Kind == "end" && e.Err == "EOF" && !socketFailed && x.Used(explore.KTime) == 0 {
+				// (timing clause: only on executions in which no thread was held back across
+				// virtual time - a handler delayed for 30 s finds its idle timer expired)
+				// a live association only sees end-of-stream after 30 s without a datagram
+				// (if the expiry raced with a datagram that arrived after 30 s of silence, the
+				// association may still take that datagram and end after it: any 30 s gap in the
+				// association's history justifies the end)
+				last, gap := int64(-1), false
+				idle := int64(30 * time.Second)
+				for _, p := range r.events[:i] {
+					if p.Assoc == e.Assoc && (p.Kind == "start" || p.Kind == "deliver") {
+						gap = gap || (last >= 0 && p.At-last >= idle)
+						last = p.At
+					}
+				}
+				if last >= 0 && e.At-last < idle && !gap {
+					x.Fail("premature-end-of-stream", "association a%d read end-of-stream %.3fs after its last datagram although the socket is fine and the idle timeout is 30 s; %s", e.Assoc, float64(e.At-last)/1e9, desc())
+				}
+			}
 			if !ended[e.Assoc] {
 				endIdx[e.Assoc] = i
 			}
@@ -431,7 +462,7 @@ func main() {
 	runner.Main(&runner.Harness{
 		ID:    "C09",
 		Level: "model_checking",
-		Rule:  "arrival scripts over {datagram from client A, from client B, wait-for-quiescence, 31 s idle gap} up to length 4 (5 thorough) plus bursts beyond the channel capacities and socket failure, x handler behaviours {echo until end, read k then return, read with a 2-byte buffer, return without reading}; for each, every interleaving of the real servePacket loop, its reader goroutine, the handler goroutines and the timers under delay bounding (every scheduling choice other than 'continue, else lowest thread id' costs one deviation), select alternatives, early timers and pool misses within a joint deviation budget (3 for histories of <=2 datagrams and selected longer ones, 2 otherwise; +1 in thorough); states = distinct observation digests",
+		Rule:  "arrival scripts over {datagram from client A, from client B, wait-for-quiescence, 31 s idle gap} up to length 4 (5 thorough) plus bursts beyond the channel capacities and socket failure, x handler behaviours {echo until end (roomy buffer), read k datagrams with a buffer that fits a datagram exactly then return, read with a 1-byte buffer (two reads per datagram), return without reading}; for each, every interleaving of the real servePacket loop, its reader goroutine, the handler goroutines and the timers under delay bounding (every scheduling choice other than 'continue, else lowest thread id' costs one deviation), select alternatives, early timers and pool misses within a joint deviation budget (3 for histories of <=2 datagrams and selected longer ones, 2 otherwise; +1 in thorough); states = distinct observation digests",
 		Assumptions: []string{
 			"the code under test is /repo's working tree with go/chan/select/sync/atomic/time mechanically redirected to the scheduler (tools/gomcrw)",
 			"sequential consistency; interleavings bounded by preemption count, executions run to completion",
